@@ -15,6 +15,9 @@ import (
 )
 
 func (ctrler *EVMCtrler) Query(req abcitypes.RequestQuery) ([]byte, xerrors.XError) {
+	if len(req.Data) < types.AddrSize*2 {
+		return nil, xerrors.ErrQuery.Wrapf("wrong query data: it should be at least %d bytes (from, to addresses)", types.AddrSize*2)
+	}
 	from := req.Data[:types.AddrSize]
 	to := req.Data[types.AddrSize : types.AddrSize*2]
 	data := req.Data[types.AddrSize*2:]
